@@ -1,6 +1,6 @@
 (* Entry point of the executable model: one case tree in, one result tree out. The first leaf selects
    the property, the second the operation. The harness sends the same case to the implementation. *)
-From ToughV Require Import Model.Base Model.Pct Model.Json Model.CJson.
+From ToughV Require Import Model.Base Model.Pct Model.Json Model.CJson Model.ClientRun.
 
 Definition run_C16 (op : N) (a : list tree) : tree :=
   match op, a with
@@ -27,6 +27,7 @@ Definition run_case (t : tree) : tree :=
   | T (L p :: L op :: args) =>
       if p =? 16 then run_C16 op args
       else if p =? 11 then run_C11 op args
+      else if p =? 6 then run_client op args
       else T [L 999]
   | _ => T [L 999]
   end.
